@@ -452,12 +452,13 @@ impl Pow<Self> for LazyBigint {
 
     fn pow(self, rhs: Self) -> Self::Output {
         match (self, rhs) {
-            (Self::Short(s1), Self::Short(s2)) => {
-                s1.checked_pow(s2.try_into().unwrap()).map_or_else(
-                    || Self::Long(BigInt::from(s1).pow(BigUint::try_from(s2).unwrap())),
+            (Self::Short(s1), Self::Short(s2)) => u32::try_from(s2)
+                .ok()
+                .and_then(|exp| s1.checked_pow(exp))
+                .map_or_else(
+                    || Self::from(BigInt::from(s1).pow(BigUint::try_from(s2).unwrap())),
                     Self::Short,
-                )
-            }
+                ),
             // 0, 1 and -1 raised to a long power, and a long raised to zero, are short
             (Self::Short(s), Self::Long(b)) => {
                 Self::from(BigInt::from(s).pow(BigUint::try_from(b).unwrap()))
